@@ -19,7 +19,24 @@ for sd in $seeds; do
   a=$(./check $pid --replay /tmp/replay_$sd.json 2>&1 | grep -cE "^VIOLATION")
   git -C /repo checkout -- .
   b=$(./check $pid --replay /tmp/replay_$sd.json 2>&1 | grep -cE "^VIOLATION")
-  if [ "$a" = "1" ] && [ "$b" = "0" ]; then echo "$sd $pid replay OK (fails on the seeded tree, passes on the restored one)"; else echo "$sd $pid REPLAY-PROBLEM seeded=$a clean=$b"; fi
+  if [ "$a" = "1" ] && [ "$b" = "0" ]; then
+    echo "$sd $pid replay OK (fails on the seeded tree, passes on the restored one)"
+    # a minimised past failure that the restored tree passes: keep it in the corpus that every run evaluates first
+    python3 - "$sd" "$pid" <<'PY'
+import json, os, sys
+sd, pid = sys.argv[1:3]
+r = json.load(open(f"/tmp/replay_{sd}.json"))
+inp = r.get("input")
+if inp:
+    os.makedirs("/verif/corpus", exist_ok=True)
+    path = f"/verif/corpus/{pid}.jsonl"
+    line = json.dumps(dict(inp, corpus_from=sd), sort_keys=True)
+    have = set(open(path).read().splitlines()) if os.path.exists(path) else set()
+    have = {l for l in have if json.loads(l).get("corpus_from") != sd}
+    have.add(line)
+    open(path, "w").write("\n".join(sorted(have)) + "\n")
+PY
+  else echo "$sd $pid REPLAY-PROBLEM seeded=$a clean=$b"; fi
   rm -f /tmp/replay_$sd.json
 done
 rm -rf evidence && mv /tmp/evidence_backup evidence
